@@ -14,7 +14,9 @@ package main
 //	    handed the destination with Reset(w, opts…). The model's answer is that of a new encoder: Reset = New.
 //	    pos: where the pre-filled destination is positioned (default: at its end, the documented use; anything else is the
 //	    caveat "seek to the end first" — model and code must still agree on what gets written, the properties are n/a).
-//	    f: the k-th operation on the destination fails after taking at most j bytes. c=1: keep calling after an error.
+//	    f: the k-th operation on the destination fails after taking at most j bytes (entry k.j) or — breaking io.Writer's
+//	    contract — takes at most j bytes and returns NO error (entry k<s>j, e.g. 3s5; model: FitModel/WriterShort.lean; the
+//	    property predicates do not count it as a fault). c=1: keep calling after an error.
 //	    → r=<result per API call> hit=<index of the call in which each fault fired> log=<destination operations> out=<hex> ci=<CheckIntegrity of out>
 //	wrx …same, no f=…   sweep: the run is repeated with one fault at every operation k of the fault-free run and
 //	    j ∈ {0, 1, len-1, len} (a seek: j = 0); each entry is the crash state "operations before k took effect, j bytes of operation k"
@@ -66,6 +68,7 @@ type wrDest struct {
 	pos    int64
 	nops   int
 	faults map[int]int
+	shorts map[int]int // operation number → bytes taken WITHOUT an error being returned
 	log    []string
 	fired  []int // operation numbers at which a fault fired
 	raw    []wrRawOp
@@ -117,8 +120,24 @@ func (d *wrDest) fault() (int, bool) {
 	return j, ok
 }
 
+// short: is the operation about to be issued one that takes only j bytes and returns nil?
+func (d *wrDest) short() (int, bool) {
+	j, ok := d.shorts[d.nops]
+	if ok {
+		d.nops++
+	}
+	return j, ok
+}
+
 func (d *wrDest) write(p []byte) (int, error) {
 	d.raw = append(d.raw, wrRawOp{'w', append([]byte(nil), p...), 0})
+	if j, sh := d.short(); sh {
+		t := min(j, len(p))
+		d.store(d.pos, p[:t])
+		d.pos += int64(t)
+		d.log = append(d.log, fmt.Sprintf("w%d:%d", len(p), t))
+		return t, nil
+	}
 	if j, bad := d.fault(); bad {
 		t := min(j, len(p))
 		d.store(d.pos, p[:t])
@@ -134,6 +153,12 @@ func (d *wrDest) write(p []byte) (int, error) {
 
 func (d *wrDest) writeAt(p []byte, off int64) (int, error) {
 	d.raw = append(d.raw, wrRawOp{'a', append([]byte(nil), p...), off})
+	if j, sh := d.short(); sh {
+		t := min(j, len(p))
+		d.store(off, p[:t])
+		d.log = append(d.log, fmt.Sprintf("a%d@%d:%d", len(p), off, t))
+		return t, nil
+	}
 	if j, bad := d.fault(); bad {
 		t := min(j, len(p))
 		d.store(off, p[:t])
@@ -237,6 +262,7 @@ type wrCfg struct {
 	pos              int // position of the destination when the encoder gets it
 	reuse            int // rs=
 	faults           map[int]int
+	shorts           map[int]int
 	cont             bool
 	files            []wFile
 	faultTokens      string
@@ -252,7 +278,7 @@ func wrParse(args []string) (*wrCfg, bool) {
 		return nil, false
 	}
 	c := &wrCfg{kind: kv["k"], mode: kv["m"], bs: atoi(kv["bs"]), arch: atoi(kv["a"]), hopt: atoi(kv["h"]), lmt: atoi(kv["l"]),
-		pv: atoi(kv["pv"]), v: atoi(kv["v"]), reuse: atoi(kv["rs"]), cont: kv["c"] == "1", files: files, raw: kv, fileToks: rest, faults: map[int]int{}}
+		pv: atoi(kv["pv"]), v: atoi(kv["v"]), reuse: atoi(kv["rs"]), cont: kv["c"] == "1", files: files, raw: kv, fileToks: rest, faults: map[int]int{}, shorts: map[int]int{}}
 	if p := kv["pre"]; p != "" && p != "-" {
 		b, err := hex.DecodeString(p)
 		if err != nil {
@@ -271,15 +297,26 @@ func wrParse(args []string) (*wrCfg, bool) {
 		c.hasFaultArgument = true
 		for _, e := range strings.Split(f, ",") {
 			a, b, ok := strings.Cut(e, ".")
+			short := false
+			if !ok {
+				a, b, ok = strings.Cut(e, "s")
+				short = true
+			}
 			k, err1 := strconv.Atoi(a)
 			j, err2 := strconv.Atoi(b)
 			if !ok || err1 != nil || err2 != nil || k < 0 || j < 0 {
 				return nil, false
 			}
-			if _, dup := c.faults[k]; dup {
+			_, dup1 := c.faults[k]
+			_, dup2 := c.shorts[k]
+			if dup1 || dup2 {
 				return nil, false
 			}
-			c.faults[k] = j
+			if short {
+				c.shorts[k] = j
+			} else {
+				c.faults[k] = j
+			}
 		}
 	}
 	return c, true
@@ -306,7 +343,7 @@ func wrErrClass(err error) string {
 	switch {
 	case err == nil:
 		return "ok"
-	case errors.Is(err, errWrInjected):
+	case errors.Is(err, errWrInjected), errors.Is(err, io.ErrShortWrite): // the latter: bufio's verdict on a short count without error
 		return "err"
 	case errors.Is(err, errWrRejected):
 		return "ev"
@@ -329,8 +366,12 @@ type wrOut struct {
 }
 
 // wrRun runs one configuration with the given faults. bad = the operation cannot be built (bad-op).
-func wrRun(c *wrCfg, faults map[int]int) (o wrOut, bad bool) {
+func wrRun(c *wrCfg, faults map[int]int) (o wrOut, bad bool) { return wrRunS(c, faults, nil) }
+
+// wrRunS: as wrRun, with the operations of `shorts` answered (n < len, nil)
+func wrRunS(c *wrCfg, faults, shorts map[int]int) (o wrOut, bad bool) {
 	w, d := wrNewDest(c.kind, c.pre, c.pos, faults)
+	d.shorts = shorts
 	call := func(f func() error) bool {
 		before := len(d.fired)
 		err := f()
@@ -445,7 +486,7 @@ func execWr(args []string) string {
 	if !ok {
 		return "bad-op"
 	}
-	o, bad := wrRun(c, c.faults)
+	o, bad := wrRunS(c, c.faults, c.shorts)
 	if bad {
 		return "bad-op"
 	}
@@ -923,7 +964,12 @@ func genEncFaults(emit func(string), tier string, rng *Rng) {
 					continue
 				}
 				seen[k] = true
-				fs = append(fs, fmt.Sprintf("%d.%d", k, []int{0, 0, 1, 2, 5, 13, 14, 1000}[rng.Intn(8)]))
+				sep := "."
+				if rng.Intn(6) == 0 { // a destination that breaks the contract: short count, nil error
+					sep = "s"
+					count("short-write-entry")
+				}
+				fs = append(fs, fmt.Sprintf("%d%s%d", k, sep, []int{0, 0, 1, 2, 5, 13, 14, 1000}[rng.Intn(8)]))
 			}
 			cont := rng.Intn(2)
 			emit(fmt.Sprintf("wr k=%s bs=%d m=%s %s pre=%s%s%s f=%s c=%d %s", kind, wrRandSize(rng), mode, g.toks(), pre, wrPos(rng, pre), wrReuse(rng), strings.Join(fs, ","), cont, ft))
